@@ -121,6 +121,94 @@ def _atom_relations(p):
         p = out
 
 
+def _exact_div(A, u):
+    """Quotient Q with A = Q * u for polynomials in the same atoms (non-negative exponents), by leading terms in a fixed
+    monomial order; None when the division is not exact (or not attempted: sizes bounded)."""
+    if not u.t or len(u.t) > 16 or len(A.t) > 600 or len(A.t) < len(u.t):
+        return None
+    for p in (A, u):
+        for m in p.t:
+            for a, e in m:
+                if e < 0:
+                    return None
+    key = lambda m: tuple(sorted(((a.id, e) for a, e in m), reverse=True))
+    lead = max(u.t, key=key)
+    lc = u.t[lead]
+    dl = dict(lead)
+    rem = dict(A.t)
+    q = {}
+    steps = 0
+    while rem:
+        steps += 1
+        if steps > 4000:
+            return None
+        m = max(rem, key=key)
+        dm = dict(m)
+        d = {}
+        for a, e in dm.items():
+            k = e - dl.get(a, 0)
+            if k < 0:
+                return None
+            if k:
+                d[a] = k
+        if any(a not in dm for a in dl):
+            return None
+        dmono = tuple(sorted(d.items(), key=lambda z: z[0].id))
+        c = Fraction(rem[m]) / Fraction(lc)
+        c = int(c) if c.denominator == 1 else c
+        q[dmono] = q.get(dmono, 0) + c
+        sub = Poly({dmono: c}) * u
+        for mm, cc in sub.t.items():
+            v = rem.get(mm, 0) - cc
+            if v == 0:
+                rem.pop(mm, None)
+            else:
+                rem[mm] = v
+    return Poly({m: c for m, c in q.items() if c != 0})
+
+
+def _cancel_recips(p):
+    """recip(u)^k * A with u | A  ->  recip(u)^(k-1) * (A / u): common factors between a numerator and a reciprocal atom are
+    cancelled (u * recip(u) = 1), so that e.g. (g.g) * sqrt(g.g)^-2 inside a radical becomes 1.  Exact polynomial division
+    only; nothing is changed when the division is not exact."""
+    guard = 0
+    while guard < 16:
+        guard += 1
+        recs = []
+        for m in p.t:
+            for a, e in m:
+                if a.kind == "recip" and e > 0 and isinstance(a.key[0], Poly) and a not in recs:
+                    recs.append(a)
+        changed = False
+        for r in recs:
+            u = r.key[0]
+            groups = {}
+            for m, c in p.t.items():
+                k = dict(m).get(r, 0)
+                if k > 0:
+                    rest = tuple((a, e) for a, e in m if a is not r)
+                    groups.setdefault(k, Poly())
+                    groups[k] = groups[k] + Poly({rest: c})
+            new_terms = None
+            for k, A in groups.items():
+                Q = _exact_div(A, u)
+                if Q is not None:
+                    if new_terms is None:
+                        new_terms = Poly({m: c for m, c in p.t.items() if dict(m).get(r, 0) != k})
+                    else:
+                        new_terms = Poly({m: c for m, c in new_terms.t.items() if dict(m).get(r, 0) != k})
+                    rk = Poly({((r, k - 1),): 1}) if k > 1 else Poly.const(1)
+                    new_terms = new_terms + Q * rk
+                    changed = True
+                    break
+            if changed:
+                p = new_terms
+                break
+        if not changed:
+            return p
+    return p
+
+
 def split_rational(p):
     """p = num / den, den = product over recip atoms (and atoms with negative exponents) of base^worst-exponent."""
     worst = {}
@@ -282,6 +370,7 @@ def canon(p, depth=0, quats=(), lin=False):
                 changed = True
     out = p.subs(f) if changed else p
     out = _atom_relations(out)
+    out = _cancel_recips(_neg_sqrt(out)) if any(a.kind in ("recip",) or (a.kind == "sqrt" and e < 0) for m in out.t for a, e in m) else out
     if quats and depth > 0:
         out = reduce_unit(out, quats)
     return out
@@ -421,6 +510,21 @@ def _decide(p, q, quats):
     return UNKNOWN
 
 
+def _rational_in_symbols(p, depth=0):
+    """p is built from symbols, reciprocals of such expressions and nested radicals of them only (a non-zero normal form of
+    this kind is taken not to vanish identically)."""
+    if depth > 3:
+        return False
+    for m in p.t:
+        for x, e in m:
+            if x.kind == "sym":
+                continue
+            if x.kind in ("recip", "sqrt") and isinstance(x.key[0], Poly) and x.key[0].t and _rational_in_symbols(x.key[0], depth + 1):
+                continue
+            return False
+    return True
+
+
 def _nonzero_radical_multiple(d):
     """d = S * P with S one monomial of sqrt / fabs atoms (of polynomials in symbols) common to every term and P a non-zero
     polynomial in symbols: S vanishes only on a null set and P is not the zero polynomial, so d is not identically 0 -
@@ -435,7 +539,10 @@ def _nonzero_radical_multiple(d):
                 if e < 0:
                     return False
                 continue
-            if at.kind in ("sqrt", "fabs") and e > 0 and isinstance(at.key[0], Poly) and all(x.kind == "sym" and ee > 0 for mm in at.key[0].t for x, ee in mm) and at.key[0].t:
+            if at.kind == "recip" and e > 0 and isinstance(at.key[0], Poly) and at.key[0].t and _rational_in_symbols(at.key[0]):
+                r.append((at.id, e))          # a non-vanishing common factor as well
+                continue
+            if at.kind in ("sqrt", "fabs") and e > 0 and isinstance(at.key[0], Poly) and at.key[0].t and _rational_in_symbols(at.key[0]):
                 r.append((at.id, e))
                 continue
             return False
